@@ -196,8 +196,11 @@ class GenerationDeltaTime:
         utc_timestamp_in_seconds : float
             Timestamp in seconds.
         """
+        # Round to the nearest millisecond before the integer arithmetic: the double product
+        # seconds * 1000 can land one ulp below the exact millisecond count, and truncating it
+        # would make generationDeltaTime one too small.
         msec = (
-            utc_timestamp_in_seconds * 1000 - ITS_EPOCH_MS + ELAPSED_MILLISECONDS
+            round(utc_timestamp_in_seconds * 1000) - ITS_EPOCH_MS + ELAPSED_MILLISECONDS
         ) % 65536
         return cls(msec=int(msec))
 
